@@ -35,7 +35,7 @@ Definition ser_entry_tail (y : sval) (start al : N) (roffs : option (list N)) (k
   let* st := match key_offset with
              | Some ko =>
                  let entry_size := g_written st - (match key_start with Some s => s | None => 0 end) in
-                 let* w := for_encoded_container entry_size in
+                 let* w := for_bare_container entry_size 1 in
                  Ok (gwr st (offset_bytes w ko))
              | None => Ok st
              end in
@@ -245,13 +245,13 @@ Section P.
   Lemma all_nodes_head p v : all_nodes p v = true -> p v = true.
   Proof. destruct v; cbn [all_nodes]; intros H; try (apply andb_true_iff in H as [H _]); assumption. Qed.
   Lemma pre_node v : pre v = true ->
-    has_bool (gsig v) = false /\ node_tail e v = false /\ node_empty_offsets e v = false /\ node_dict_key e v = false
+    has_bool (gsig v) = false /\ node_tail e v = false /\ node_empty_offsets e v = false
     /\ len (gvb e v) < 2 ^ 60.
   Proof.
     intros H. apply all_nodes_head in H. unfold node_pre in H.
     apply andb_true_iff in H as [H _]. apply andb_true_iff in H as [H1 H2].
     apply negb_true_iff in H1. unfold node_known in H1.
-    apply orb_false_iff in H1 as [H1 Hd]. apply orb_false_iff in H1 as [H1 Hc]. apply orb_false_iff in H1 as [Ha Hb].
+    apply orb_false_iff in H1 as [H1 Hc]. apply orb_false_iff in H1 as [Ha Hb].
     apply N.ltb_lt in H2. unfold node_bool in Ha. tauto.
   Qed.
   Lemma pre_align v : pre v = true -> gwf v = true -> align_gv (gsig v) = galign (gsig v).
@@ -391,7 +391,7 @@ Section P.
   Proof.
     intros HF st He Hw Hp Hs Hv Hd Hf. cbn [sval_of]. rewrite gser_seq.
     pose proof (pre_align _ Hp Hw) as Hal. cbn [gsig] in Hal, Hs |- *.
-    destruct (pre_node _ Hp) as (Hnb & _ & Hne & _ & Hsmall).
+    destruct (pre_node _ Hp) as (Hnb & _ & Hne & Hsmall).
     cbn [gwf] in Hw. apply andb_true_iff in Hw as [Hel Hwl].
     unfold pre in Hp. rewrite all_nodes_array in Hp. apply andb_true_iff in Hp as [_ Hpl].
     unfold gfits in Hf. cbn [gdepth_ok] in Hf. apply andb_true_iff in Hf as [Hf Hfl]. apply andb_true_iff in Hf as [Hf1 Hf2].
@@ -587,7 +587,7 @@ Section P.
   Proof.
     intros HF st He Hw Hp Hs Hv Hd Hf. cbn [sval_of]. rewrite gser_tuple.
     pose proof (pre_align _ Hp Hw) as Hal. cbn [gsig] in Hal, Hs |- *.
-    destruct (pre_node _ Hp) as (Hnb & Hnt & Hne & _ & Hsmall).
+    destruct (pre_node _ Hp) as (Hnb & Hnt & Hne & Hsmall).
     cbn [gwf] in Hw. apply andb_true_iff in Hw as [Hnel Hwl].
     assert (Hl : l <> []) by (destruct l; [discriminate|discriminate]).
     unfold pre in Hp. rewrite all_nodes_struct in Hp. apply andb_true_iff in Hp as [_ Hpl].
@@ -667,7 +667,19 @@ Section P.
     gdepth_ok (d_struct d) (d_array d) (dtot d) (fst p) = true /\
     gdepth_ok (d_struct d) (d_array d) (dtot d) (snd p) = true /\
     (gis_fixed ks && gis_fixed vs = true -> padn (len (concat (entry_parts e vs p))) (N.max (galign ks) (galign vs)) = 0) /\
-    (gis_fixed ks = false -> entry_size_bad (len (concat (entry_parts e vs p))) = false).
+    len (concat (entry_parts e vs p)) < 2 ^ 60.
+
+  Lemma tb_len_ge al s sr ps : len (concat ps) <= len (tuple_bytes al (s :: sr) ps).
+  Proof. unfold tuple_bytes. destruct (forallb gis_fixed (s :: sr)); rewrite len_app; lia. Qed.
+  Lemma entry_len_data ks vs l : forall off p, In p l ->
+    len (concat (entry_parts e vs p)) <= len (concat (geparts e ks vs l off)).
+  Proof.
+    induction l as [|q l IH]; intros off p Hin; [destruct Hin|]. cbn [geparts concat]. rewrite !len_app.
+    destruct Hin as [->|Hin].
+    - pose proof (tb_len_ge (N.max (galign ks) (galign vs)) ks [vs] (entry_parts e vs p)). lia.
+    - specialize (IH (off + len (pad off (N.max (galign ks) (galign vs)) ++ tuple_bytes (N.max (galign ks) (galign vs)) [ks; vs] (entry_parts e vs q))) p Hin).
+      rewrite len_app in IH. lia.
+  Qed.
 
   Lemma max_div_l a b : pow2 a -> pow2 b -> N.max a b mod a = 0.
   Proof. intros Ha Hb. apply pow2_div; [now apply pow2_max|assumption|lia]. Qed.
@@ -740,14 +752,13 @@ Section P.
       rewrite Hsame.
       destruct kso as [ks0|].
       + (* variable-size key: its end is stored after the value *)
-        specialize (Hkeyw Hkso). unfold entry_size_bad in Hkeyw.
         replace (g_written st + len p0 + len kb - (g_written st + len p0)) with (len kb) by lia.
         autorewrite with gst. rewrite !len_app.
         replace (g_written st + (len p0 + (len kb + len vb)) - (g_written st + len p0)) with (len kb + len vb) by lia.
-        rewrite len_app in Hkeyw.
-        destruct (for_encoded_container (len kb + len vb)) as [w| |] eqn:Hfe; try discriminate.
-        apply negb_false_iff, N.eqb_eq in Hkeyw. cbn [bind]. rewrite gwr_gwr.
-        rewrite Hkso in Het. cbn [andb] in Het. rewrite len_app in Het. rewrite <- Hkeyw in Het.
+        rewrite len_app in Hkeyw. change (2 ^ 60) with 1152921504606846976 in Hkeyw.
+        rewrite for_bare_width by lia. set (w := offset_width (len kb + len vb) 1).
+        cbn [bind]. rewrite gwr_gwr.
+        rewrite Hkso in Het. cbn [andb] in Het. rewrite len_app in Het. fold w in Het.
         set (b := p0 ++ tuple_bytes al [gsig key; gsig x] (entry_parts e (gsig x) (key, x))).
         assert (Hb : (p0 ++ kb ++ vb) ++ offset_bytes w (len kb) = b).
         { subst b. rewrite Het. unfold offset_bytes. now rewrite <- !app_assoc. }
@@ -784,7 +795,7 @@ Section P.
   Proof.
     intros HF st He Hw Hp Hs Hv Hd Hf. cbn [sval_of]. rewrite gser_map.
     pose proof (pre_align _ Hp Hw) as Hal. cbn [gsig] in Hal, Hs |- *.
-    destruct (pre_node _ Hp) as (Hnb & Hnt & Hne & Hnk & Hsmall).
+    destruct (pre_node _ Hp) as (Hnb & Hnt & Hne & Hsmall).
     cbn [gwf] in Hw. apply andb_true_iff in Hw as [Hw Hwl]. apply andb_true_iff in Hw as [Hkb Hvs].
     unfold pre in Hp. rewrite all_nodes_dict in Hp. apply andb_true_iff in Hp as [_ Hpl].
     unfold gfits in Hf. cbn [gdepth_ok] in Hf. apply andb_true_iff in Hf as [Hf Hfl]. apply andb_true_iff in Hf as [Hf1 Hf2].
@@ -807,9 +818,8 @@ Section P.
         destruct (padn (len (concat (entry_parts e vs q))) al =? 0) eqn:Hz; [now apply N.eqb_eq in Hz|].
         exfalso. rewrite <- Bool.not_true_iff_false in Hnt. apply Hnt. apply existsb_exists. exists q. split; [assumption|].
         change (N.max (galign ks) (galign vs)) with al. now rewrite Hz.
-      - intros Hfx. cbn [node_dict_key] in Hnk. rewrite Hfx in Hnk. cbn [negb andb] in Hnk.
-        destruct (entry_size_bad (len (concat (entry_parts e vs q)))) eqn:Hz; [|reflexivity].
-        exfalso. rewrite <- Bool.not_true_iff_false in Hnk. apply Hnk. apply existsb_exists. exists q. split; assumption. }
+      - pose proof (entry_len_data ks vs l 0 q Hq) as Hle. rewrite gvb_dict in Hsmall. cbv zeta in Hsmall.
+        destruct (gis_fixed ks && gis_fixed vs); [|rewrite len_app in Hsmall]; lia. }
     rewrite (entries_ok l HF st1 (g_written st + len p) _ ks vs); subst st1; autorewrite with gst; try assumption; try reflexivity.
     2:{ replace (g_pos0 st + (g_written st + len p)) with (gabs st + len p) by (unfold gabs; lia).
         subst p. rewrite len_pad. now apply padn_after. }
